@@ -34,7 +34,8 @@ def wellformed_towers(rng) -> t.Tuple[list, t.Optional[int]]:
             if tcp_at is not None and j == tcp_at:
                 floors.append((0x07, b"", struct.pack(">H", port)))
             else:
-                proto = rng.choice((0x0D, 0x0B, 0x09, 0x08, 0x0F, 0x1F, 0x20, 0x21, 0x00, 0xFE))
+                # (known identifiers, a handful of recurring unknown ones, and any other one-octet identifier: a long-lived process sees many)
+                proto = rng.choice((0x0D, 0x0B, 0x09, 0x08, 0x0F, 0x1F, 0x20, 0x21, 0x00, 0xFE)) if rng.random() < 0.7 else rng.randrange(0x22, 0x100)
                 if proto == 0x0D:
                     lhs, rhs = rpce.ISD_KEY_IF[0].bytes_le + b"\x01\x00", b"\x00\x00"
                 elif proto == 0x0B:
